@@ -59,13 +59,14 @@ func resourceBomb(src string) bool {
 
 // selfRecursiveMacro: the macros of the source can call each other in a cycle (textually: the
 // text between a macro declaration and the next endmacro mentions a macro's name followed by an
-// opening parenthesis). Unconditional recursion of this kind ends in a fatal stack overflow.
+// opening parenthesis; the body reaches to the end of the source when something in it can hide
+// the endmacro tag from the engine). Unconditional recursion of this kind ends in a fatal stack overflow.
 func selfRecursiveMacro(src string) bool {
 	type decl struct{ name, body string }
 	var decls []decl
 	for _, loc := range macroDecl.FindAllStringSubmatchIndex(src, -1) {
 		rest := src[loc[1]:]
-		if end := strings.Index(rest, "endmacro"); end >= 0 {
+		if end := strings.Index(rest, "endmacro"); end >= 0 && !mayHideTagEnd(rest[:end]) {
 			rest = rest[:end]
 		}
 		decls = append(decls, decl{src[loc[2]:loc[3]], rest})
@@ -98,6 +99,31 @@ func selfRecursiveMacro(src string) bool {
 	}
 	for _, d := range decls {
 		if visit(d.name) {
+			return true
+		}
+	}
+	return false
+}
+
+// mayHideTagEnd: the text can make the engine read past the `endmacro` that follows it — a string
+// literal left open (an odd number of unescaped quotes of one kind), a comment or a verbatim
+// section swallow tags. The body of the macro is then taken to reach to the end of the source.
+func mayHideTagEnd(body string) bool {
+	if strings.Contains(body, "{#") || strings.Contains(body, "verbatim") || strings.Contains(body, "raw") {
+		return true
+	}
+	for _, qc := range []byte{'\'', '"'} {
+		n := 0
+		for i := 0; i < len(body); i++ {
+			if body[i] == '\\' {
+				i++
+				continue
+			}
+			if body[i] == qc {
+				n++
+			}
+		}
+		if n%2 == 1 {
 			return true
 		}
 	}
